@@ -6,9 +6,18 @@ Ed25519, plain and bcrypt-encrypted) and a few wrong-type files (unsupported EC 
 mutations per case: byte level (bit flip, delete, insert, replace, truncate), line level (drop, dup,
 swap), PEM header edits (Proc-Type/DEK-Info, BEGIN/END tag swaps), base64 body splices from another
 file and structure-aware edits of the decoded body (DER bytes; OpenSSH container fields: cipher, kdf,
-kdf options, key count, public blob, checkints, private fields, padding) re-encoded afterwards. Each
-file is loaded with one of the three key classes (usually the matching one), password none/right/
-wrong/empty, through from_private_key(file object) or from_private_key_file.
+kdf options, key count, public blob, checkints, private fields, padding) re-encoded afterwards, and
+edits of the key MATERIAL itself ("k-edit", vlib.keyedit): one named number / octet string inside the
+decoded (and, for protected files, decrypted) private section - OpenSSH RSA n e d iqmp p q, ECDSA private
+scalar / public point, Ed25519 seed / each public copy, the public blob's numbers, every copy of one value
+together; PKCS#1 version n e d p q dmp1 dmq1 iqmp; SEC1 scalar / curve OID / public point - is bit-flipped,
+moved by a small delta, replaced by another file's or another field's value, set to 0/1 or encoded
+non-minimally, and the file is rebuilt around it with correct lengths, checkints, padding and encryption.
+Every run first ENUMERATES (seed file x field x base edit set) with the matching class and right password
+(~2700 cases; thorough: additionally every bit position, sharded over the workers), then the random phase
+mixes k-edits with all other mutations. Each file is loaded with one of the three key classes (usually
+the matching one), password none/right/wrong/empty, through from_private_key(file object) or
+from_private_key_file.
 Oracle: the load raises SSHException (incl. PasswordRequiredException), or returns a key that signs
 and whose signature verifies under Class(data=key.asbytes()) and under the independent verifier
 (vlib.keys.RefPub built from key.asbytes()). Anything else is a violation bucketed by
@@ -24,6 +33,7 @@ import os
 from hypothesis import strategies as st
 
 from vlib import core
+from vlib import keyedit as E
 from vlib import keys as K
 from vlib import refssh as R
 
@@ -33,8 +43,12 @@ RULE = (
     "hypothesis picks a seed file (29 bundled + ~16 written at run time: PEM and OpenSSH container, plain and "
     "encrypted, all three key types, wrong-type files), 1-4 mutations (byte flip/delete/insert/replace/truncate, line "
     "drop/dup/swap, Proc-Type/DEK-Info/BEGIN-END tag edits, base64 splice, structure-aware edits of the decoded DER or "
-    "OpenSSH container fields incl. cipher/kdf names, kdf options, key count, checkints, private fields, padding), a key "
-    "class (matching 70%), password none/right/wrong/empty and the entry point (file object or file name); non-trivial = "
+    "OpenSSH container fields incl. cipher/kdf names, kdf options, key count, checkints, private fields, padding, "
+    "k-edit = one named key number/octet string inside the decoded+decrypted private section or PKCS#1/SEC1 DER "
+    "flipped/shifted/replaced/re-encoded with the file rebuilt correctly around it), a key "
+    "class (matching 70%), password none/right/wrong/empty and the entry point (file object or file name); before the "
+    "random phase every run enumerates seed file x key field x base edit set (5 bit positions, deltas -1/+1/+2, other "
+    "file's value, other field's value, 0, 1, non-minimal encoding) with matching class and right password; non-trivial = "
     "mutated text differs from the seed and still contains a BEGIN line; distinct by SHA-1 of (class, password, entry "
     "point, file bytes)"
 )
@@ -290,10 +304,12 @@ container_mut = st.one_of(
     st.tuples(st.just("p-pad"), st.sampled_from(PADS)).map(list),
     st.tuples(st.just("c-rest"), st.binary(min_size=1, max_size=6)).map(list),
 )
+# key material edit: field index into the view's names (or the name itself), op, argument (see vlib.keyedit)
+kedit_mut = st.tuples(st.just("k-edit"), st.integers(0, 11), st.sampled_from(E.OPS), st.integers(-3, 4200)).map(list)
 splice_mut = st.tuples(st.just("splice"), st.integers(0, 9999), st.integers(0, 9999), st.integers(0, 9999)).map(list)
 
-mutation_openssh = st.one_of(byte_mut, line_mut, header_mut, body_mut, container_mut, container_mut, container_mut, splice_mut)
-mutation_pem = st.one_of(byte_mut, line_mut, header_mut, header_mut, body_mut, body_mut, splice_mut)
+mutation_openssh = st.one_of(byte_mut, line_mut, header_mut, body_mut, container_mut, container_mut, container_mut, splice_mut, kedit_mut, kedit_mut)
+mutation_pem = st.one_of(byte_mut, line_mut, header_mut, header_mut, body_mut, body_mut, splice_mut, kedit_mut, kedit_mut)
 
 
 @st.composite
@@ -351,8 +367,28 @@ def _mutate_body(parts, fn):
     return (parts[0], parts[1], parts[2], to_lines(new, 70 if parts[1].startswith(b"-----BEGIN OPENSSH") else 64), parts[4], parts[5])
 
 
-def apply_mutation(text, m, aux_texts):
-    """text (bytes) -> mutated bytes; returns (new_text, applied)."""
+_views = None
+
+
+def seed_views():
+    """name -> vlib.keyedit.View of the unmodified seed file (seeds without recognisable key material are absent)."""
+    global _views
+    if _views is None:
+        d = {}
+        for name in seed_names():
+            cls0, pw0, text = seeds()[name]
+            parts = split_pem(text.encode("ascii"))
+            raw = body_bytes(parts[3]) if parts else None
+            v = E.open_view(parts[1], parts[2], raw, pw0) if raw else None
+            if v is not None:
+                d[name] = v
+        _views = d
+    return _views
+
+
+def apply_mutation(text, m, aux_texts, pw0=None):
+    """text (bytes) -> mutated bytes; returns (new_text, applied); pw0 = the seed file's real password.
+    For "k-edit", applied is the string "<view kind>.<field>|<op>"."""
     kind = m[0]
     n = len(text)
     if kind in BYTE_MUTS:
@@ -410,6 +446,18 @@ def apply_mutation(text, m, aux_texts):
         i = _pos(m[2], len(body))
         j = _pos(m[3], len(other[3]))
         return join_pem((pre, begin, headers, body[:i] + other[3][j:], end, post)), True
+    if kind == "k-edit":
+        raw = body_bytes(body)
+        view = E.open_view(begin, headers, raw, pw0) if raw else None
+        if view is None:
+            return text, False
+        name = m[1] if isinstance(m[1], str) else view.names[m[1] % len(view.names)]
+        changed = E.edit(view, name, m[2], m[3], [seed_views()[n] for n in sorted(seed_views())])
+        if changed is None:
+            return text, False
+        nh, nraw = view.rebuild(changed)
+        wide = begin.startswith(b"-----BEGIN OPENSSH")
+        return join_pem((pre, begin, nh, to_lines(nraw, 70 if wide else 64), end, post)), "%s.%s|%s" % (view.kind, name, m[2])
     if kind.startswith("body-"):
         sub = kind[5:]
 
@@ -520,10 +568,12 @@ def realise(rc):
     applied = 0
     kinds = []
     for m in rc["muts"]:
-        text, ok = apply_mutation(text, list(m), aux)
+        text, ok = apply_mutation(text, list(m), aux, pw0)
         if ok:
             applied += 1
             kinds.append(m[0])
+            if isinstance(ok, str):
+                kinds += ["k-field:" + ok.split("|")[0], "k-op:" + ok.split("|")[1]]
     if rc["pw"] == "none":
         password = None
     elif rc["pw"] == "right":
@@ -747,6 +797,32 @@ def run_atheris(ctx, seconds, with_seed_corpus):
     return True
 
 
+def enumerated_recipes(ctx):
+    """seed file x key field x edit: the base edit set in every run (quick: one seed file per distinct (format,
+    key material, protected or not)); thorough adds every bit position of every field, sharded over the workers
+    by (running index mod nworkers). Edits that do not apply to a field (no other file holds a different value,
+    constant already there) are skipped."""
+    i = 0
+    done = set()
+    others = [seed_views()[n] for n in sorted(seed_views())]
+    for name in seed_names():
+        view = seed_views().get(name)
+        if view is None:
+            continue
+        ident = (view.kind, seeds()[name][1] is None, repr(sorted(view.values.items())))
+        if ctx.tier == "quick" and ident in done:
+            continue
+        done.add(ident)
+        for field in view.names:
+            edits = [(op, arg, True) for op, arg in E.base_edits(view, field)]
+            if ctx.tier == "thorough":
+                edits += [(op, arg, False) for op, arg in E.all_flips(view, field) if (op, arg, True) not in edits]
+            for op, arg, base in edits:
+                i += 1
+                if (base or i % ctx.nworkers == ctx.worker) and E.edit(view, field, op, arg, others) is not None:
+                    yield {"seed": name, "cls": seeds()[name][0], "pw": "right", "via": "fileobj", "muts": [["k-edit", field, op, arg]]}
+
+
 def run(ctx):
     ctx.set_budget(60, 800)
     state = {"seen": set(), "known": set(k for k, e in core.load_known(PROPERTY).items() if e.get("status") == "open")}
@@ -754,6 +830,14 @@ def run(ctx):
     ctx.assume("bcrypt.kdf is interposed by the harness: memoised, calls with more than %d rounds refused and counted as excluded" % MAX_ROUNDS)
     seeds()
     fuzz = ctx.tier == "thorough" and ctx.worker in (0, 1)
+    n = 0
+    for rc in enumerated_recipes(ctx):
+        if ctx.out_of_time():
+            break
+        execute(ctx, rc, state)
+        n += 1
+    ctx.note("enumerated_key_material_edits", n)
+    ctx.note("key_material_views", len(seed_views()))
     ctx.explore(recipes(), lambda rc: execute(ctx, rc, state), ctx.scale(5000, 20000 if fuzz else 60000), shrink=False)
     ctx.note("seed_files", len(seeds()))
     if fuzz:
